@@ -527,7 +527,11 @@ func newSchemaType(spec *specification.Schema, components Componenter, cfg Confi
 	case "": // any
 		return RawBytesType{}, nil, nil
 	case "array":
-		itemType, is, err := NewSchema(spec.Value().Items, NamedComponenter{Componenter: components, Name: "Items"}, cfg)
+		items := spec.Value().Items
+		if items == nil {
+			return nil, nil, fmt.Errorf("'array' type: 'items' is not set")
+		}
+		itemType, is, err := NewSchema(items, NamedComponenter{Componenter: components, Name: "Items"}, cfg)
 		if err != nil {
 			return nil, nil, fmt.Errorf("items schema: %w", err)
 		}
